@@ -207,6 +207,27 @@ CHECKS = {
             'deterministic simulation: reply-order schedule search + '
             'responder fault injection, reference file model oracle',
             'DESIGN.md 4 C12'),
+    'C13': ('c13_confinement',
+            'A real SFTPServer(chroot=root) on real files is driven by a '
+            'scripted raw SFTP requester (v3/4/6) with request sequences whose '
+            'path byte strings come from a grammar ("..", ".", empty '
+            'components, repeated/leading slashes, existing names, absolute '
+            'real paths of the root and a sibling, long/non-UTF-8 names) '
+            'including symlink/rename/use sequences; a process-wide audit '
+            'hook plus wrapped os.stat/lstat/readlink/statvfs/access record '
+            'every path touched, resolved at call time, and sentinel files '
+            'next to the root are snapshotted. A real SFTP client '
+            'get(recurse=True) and a real scp() sink fetch from hostile '
+            'sources returning crafted names, duplicate names changing type '
+            'and outward symlinks; nothing outside the destination may be '
+            'created or changed.',
+            COMMON_NOTE + ' One open known finding (symlink with relative '
+            'target renamed to a shallower directory) is listed in '
+            'known_findings.json and re-demonstrated from its replay file. '
+            'Symlinks pre-placed by the administrator are out of scope.',
+            'deterministic simulation: hostile request-history / hostile '
+            'source search with a filesystem access recorder and '
+            'before/after snapshots', 'DESIGN.md 4 C13'),
 }
 
 NOT_YET = {}
